@@ -3,6 +3,7 @@
 package cl
 
 import (
+	"math"
 	"math/big"
 
 	"github.com/ohler55/slip"
@@ -46,7 +47,10 @@ func (f *Abs) Call(s *slip.Scope, args slip.List, depth int) (result slip.Object
 	result = args[0]
 	switch ta := result.(type) {
 	case slip.Fixnum:
-		if ta < 0 {
+		if ta == math.MinInt64 { // overflow, promote to a bignum
+			var z big.Int
+			result = (*slip.Bignum)(z.Neg(big.NewInt(int64(ta))))
+		} else if ta < 0 {
 			result = -ta
 		}
 	case slip.SingleFloat:
